@@ -89,6 +89,7 @@ func checkSchedule(r *simrt.Run, n *simnode.Node, tickLo, tickHi int64, how stri
 }
 
 func runC05(r *simrt.Run) {
+	r.WatchLocks() // a lock of the node that is never released is a violation, not a hang
 	t := r.T
 	mode := nomsim.SporkMode(t.Choose(3))
 	var gen = nomsim.MockGenesis(mode)
